@@ -311,7 +311,7 @@ theorem InvD.closed : Closed InvD where
     · exact h.of_eq rfl rfl rfl
     · exact h
   ctxEmpty := fun _ _ h => h.setTh_same _ _ (fun _ => ⟨rfl, rfl, rfl⟩)
-  dropCtx := fun s i h _ _ => by
+  dropCtx := fun s i h _ _ _ => by
     refine h.of_eq rfl rfl ?_
     unfold PA.dropCtx
     rw [ctrs_setTh_same]
